@@ -81,7 +81,7 @@ def run_history(case):
         return False
 
     try:
-        steps = [('renew-all',)] + list(case['steps']) + [('renew', e) for e in eps]
+        steps = [('renew-all',)] + [tuple(x) for x in case['steps']] + [('renew', e) for e in eps]
         for si, st in enumerate(steps):
             kind = st[0]
             if kind == 'contacts':
@@ -143,11 +143,15 @@ def run_history(case):
                     break
                 if [r for r in log if r.get('method') == 'POST']:
                     pass  # a restart with nothing due sends nothing; observed, not judged
-            elif kind == 'renew':
+            elif kind in ('renew', 'renew-fault'):
                 e = st[1]
                 name = ca_names[e]
                 write_cfg()
                 on_start()
+                if kind == 'renew-fault':
+                    # the first account update / key roll-over this CA receives is refused once; the next attempt of the same run must redo it
+                    ca.set_plan(dict(plan, faults=[{'ca': name, 'kinds': ['accountUpdate', 'keyChange'], 'action': 'acme_error',
+                                                    'type': st[2] if len(st) > 2 else 'unauthorized', 'status': 403, 'max_fires': 1, 'id': 'account-fault'}]))
                 try:
                     os.remove('%s/certs/crt%s_ecdsa-p256.crt.pem' % (d, e))
                 except OSError:
@@ -156,12 +160,16 @@ def run_history(case):
 
                 def stop(h, dm):
                     po = [x for x in h if C.hook_event(x) == 'post-operation' and x.get('cert') == cert]
-                    return any(x['kv'].get('is_success') == 'true' for x in po) or len(po) >= 3
+                    return any(x['kv'].get('is_success') == 'true' for x in po) or len(po) >= (3 if kind == 'renew' else 5)
                 hooks, log, rc, to, err = daemon_run(stop, 60)
+                if kind == 'renew-fault':
+                    ca.set_plan(plan)
+                    if any(r.get('fault') for r in log):
+                        res['account_faults_fired'] = res.get('account_faults_fired', 0) + 1
                 mine = [r for r in log if r.get('ca') == name]
                 ok = any(C.hook_event(x) == 'post-operation' and x.get('cert') == cert and x['kv'].get('is_success') == 'true' for x in hooks)
                 prev = at[e]
-                tag = 'step %d (renew on %s after %s)' % (si, e, [s[0] + (':' + s[1] if len(s) > 1 else '') for s in steps[max(0, si - 3):si]])
+                tag = 'step %d (%s on %s after %s)' % (si, 'renew' if kind == 'renew' else 'renew with the first account update / key roll-over refused once', e, [s[0] + (':' + s[1] if len(s) > 1 else '') for s in steps[max(0, si - 3):si]])
                 regs = [r for r in mine if r.get('kind') == 'newAccount' and r.get('tx', 0) == 0]
                 unknown = [r for r in mine if r.get('status') == 400 and 'accountDoesNotExist' in (r.get('resp_body') or '')]
                 eab_changed = prev is not None and cfg_state['eab'] is not None and prev.get('eab') != cfg_state['eab']
@@ -193,8 +201,8 @@ def run_history(case):
                 res['pending'] = pending
                 # 3. one update per changed item
                 reregistered = bool(regs)
-                upd = [r for r in mine if r.get('kind') == 'accountUpdate' and r.get('tx', 0) == 0 and r.get('status') == 200]
-                kch = [r for r in mine if r.get('kind') == 'keyChange' and r.get('tx', 0) == 0 and r.get('status') == 200]
+                upd = [r for r in mine if r.get('kind') == 'accountUpdate' and r.get('status') == 200]
+                kch = [r for r in mine if r.get('kind') == 'keyChange' and r.get('status') == 200]
                 res['updates_seen'] += len(upd)
                 res['key_changes_seen'] += len(kch)
                 if prev is not None and not reregistered:
@@ -400,6 +408,13 @@ MANDATORY = [
     [('key',), ('renew', 'A'), ('restart',)],                                   # with key_start=3: rsa2048 -> rsa4096 (same signature algorithm)
     [('key',), ('restart',), ('key',)],
     [('both',), ('restart',), ('forget', 'A')],
+    [('contacts',), ('renew-fault', 'A')],
+    [('key',), ('renew-fault', 'A')],
+    [('both',), ('renew-fault', 'B')],
+    [('contacts',), ('renew-fault', 'A'), ('restart',)],
+    [('key',), ('renew-fault', 'B'), ('contacts',)],
+    [('contacts',), ('renew-fault', 'A', 'malformed'), ('renew', 'B'), ('restart',)],
+    [('contacts',), ('renew-fault', 'B'), ('renew', 'A'), ('restart',), ('renew', 'B')],
 ]
 
 
@@ -410,14 +425,14 @@ def gen(tier, r):
         for combo in itertools.product(STEP_ALPHABET, repeat=n):
             # histories without any edit or forget are the baseline only
             hs.append(list(combo))
-    alpha3 = STEP_ALPHABET + [('renew', 'C'), ('forget', 'C')]
+    alpha3 = STEP_ALPHABET + [('renew', 'C'), ('forget', 'C'), ('renew-fault', 'A'), ('renew-fault', 'B')]
     for j in range(16 if tier == 'quick' else 300):
         hs.append([r.choice(alpha3) for _ in range(r.randint(4, 6))])
     cases = []
     for i, h in enumerate(hs):
         n_eps = 3 if any(len(s) > 1 and s[1] == 'C' for s in h) else 2
         # the key cycle starts at rsa2048 for some histories, so that the next key edit is rsa2048 -> rsa4096 -> rsa2048
-        ks = 3 if (i in (len(MANDATORY) - 2, len(MANDATORY) - 1) or (i % 11 == 5 and any(s[0] in ('key', 'both') for s in h))) else 0
+        ks = 3 if (i in (8, 9) or (i % 11 == 5 and any(s[0] in ('key', 'both') for s in h))) else 0
         cases.append({'i': i, 'steps': h, 'n_eps': n_eps, 'key_start': ks})
     return cases
 
@@ -446,6 +461,7 @@ def run(tier):
         chk.count('contact_updates_seen', res['updates_seen'])
         chk.count('key_rollovers_seen', res['key_changes_seen'])
         chk.count('registrations_seen', res['registrations_seen'])
+        chk.count('refused_account_requests', res.get('account_faults_fired', 0))
         if res['renewals']:
             chk.distinct.add(('history', tuple(tuple(s) for s in c['steps'])))
         if not res['problems']:
@@ -460,7 +476,7 @@ def run(tier):
     persistence(chk, tier, r)
     chk.exhaustive = False
     chk.notes['histories_enumerated_up_to_length'] = 2 if tier == 'quick' else 3
-    chk.rule = ('histories: every sequence of <= %d steps from {contacts, key, both, eab+, eab-, restart, renew A|B, forget A|B} plus mandatory and random '
+    chk.rule = ('histories: every sequence of <= %d steps from {contacts, key, both, eab+, eab-, restart, renew A|B, forget A|B} plus mandatory ones (incl. renewals whose first account update / key roll-over is refused once) and random '
                 'ones of length 4-6 over 3 endpoints, each framed by initial and final renewals on every endpoint; persistence: account shapes (7 key types, '
                 '0-3 superseded keys, 0-3 endpoints, with/without binding, Unicode names) through save/load; truncation: every prefix of real account files; '
                 'distinct = histories with at least one judged renewal + shapes + prefix classes' % (2 if tier == 'quick' else 3))
